@@ -10,8 +10,14 @@
               nw, nwNoDist, nwLabels, nwBlanks   trees parsed back from to_newick(...) variants
               binary   as_binary(tree);   copy   tree.copy()
               eqCopy, eqMirror, eqOther, eqNewick, hashCopy, hashMirror   booleans
-   "upgma"  D; obs = [oc, leaves, nodes] (see UpgmaPostObs), tree (diagnostic)
-   "nj"     D; obs = [oc, leaves, dist, rootArity], tree (diagnostic)
+              leavesAfter, distAfter   leaves / get_distance asked again after all those calls
+   "upgma"  D; obs = [oc, leaves, nodes] (see UpgmaPostObs), tree (diagnostic),
+            changed = cells <<i, j>> of the caller's array that differ from a snapshot taken before the call
+   "nj"     D; obs = [oc, leaves, dist, rootArity], tree (diagnostic), changed
+   "session" D, kind (ArrayKinds), calls = <<[fn, obs, changed], ...>>: a history of calls of upgma /
+            neighbor_joining on one array object of that kind (obs as for "upgma" / "nj")
+   "block"  B, grp (block matrix, see Phylo); obs = [oc, flat] with flat = the returned tree as list of
+            <<kids, lens>> (Phylo!Flat), changed
 
    PrintT(<<"MISMATCH", tid, l, flags, expected>>) for disagreements,
    PrintT(<<"DIAG", tid, l, what>>) for differences that carry no verdict. *)
@@ -45,15 +51,17 @@ JudgeTreeWith(e, t, inf, uinf, pNw, pNoDist, pLabels, pBlanks, pBinary, pCopy) =
       okNoDist == SameTopology(pNoDist, t) /\ SameLeafDistances(pNoDist, ZeroLens(t))
       okBinary == IsBinary(pBinary) /\ SameLeafDistances(pBinary, t) /\ Len(LeafList(pBinary)) = n
       okCopy   == SameTopology(pCopy, t) /\ SameLeafDistances(pCopy, t)
+      \* the tree answers the same after to_newick / as_binary / copy / == were called on it
+      okAfter  == o.leavesAfter = LeafList(t) /\ MatrixEq(o.distAfter, LAMBDA i, j : inf.pd[<<i, j>>], n)
       okEq     == /\ o.eqCopy /\ o.hashCopy
                   /\ o.eqMirror = SameTree(t, TreeOf(e.mirror)) /\ (o.eqMirror => o.hashMirror)
                   /\ o.eqOther = SameTree(t, TreeOf(e.other))
                   /\ o.eqNewick
       \* beyond the statement: exact branch lengths and child order through Newick / copy / as_binary
       dExact   == SameTree(pNw, t) /\ SameTree(pCopy, t) /\ SameTree(pBinary, AsBinary(t))
-      flags == <<okDomain, okLeaves, okDist, okTopo, okLca, okNewick, okNoDist, okBinary, okCopy, okEq>>
+      flags == <<okDomain, okLeaves, okDist, okTopo, okLca, okNewick, okNoDist, okBinary, okCopy, okEq, okAfter>>
   IN /\ IF dExact THEN TRUE ELSE PrintT(<<"DIAG", tid, l + 1, "tree-exact">>)
-     /\ IF okDomain /\ okLeaves /\ okDist /\ okTopo /\ okLca /\ okNewick /\ okNoDist /\ okBinary /\ okCopy /\ okEq THEN TRUE
+     /\ IF okDomain /\ okLeaves /\ okDist /\ okTopo /\ okLca /\ okNewick /\ okNoDist /\ okBinary /\ okCopy /\ okEq /\ okAfter THEN TRUE
         ELSE PrintT(<<"MISMATCH", tid, l + 1, flags,
                       [leaves |-> LeafList(t), dist |-> [i \in 1..n |-> [j \in 1..n |-> inf.pd[<<i - 1, j - 1>>]]],
                        binary |-> CanonTree(AsBinary(t))]>>)
@@ -64,35 +72,63 @@ JudgeTree(e) ==
   \E pBlanks \in {TreeOf(e.obs.nwBlanks)} : \E pBinary \in {TreeOf(e.obs.binary)} : \E pCopy \in {TreeOf(e.obs.copy)} :
     JudgeTreeWith(e, t, inf, uinf, pNw, pNoDist, pLabels, pBlanks, pBinary, pCopy)
 
-JudgeUpgmaWith(e, dom, p) ==
-  LET o == e.obs
-      okOc == (dom => o[1] = "ok") /\ (~Dom_SymNonNeg(e.D) => o[1] = "Rejected")
-      \* no verdict: the specification's own run (first minimum in scan order) gives the same clades
-      dSame == ~dom \/ o[1] # "ok" \/ Clades(Upgma(e.D)) = Clades(TreeOf(e.tree))
-  IN /\ IF dSame THEN TRUE ELSE PrintT(<<"DIAG", tid, l + 1, "upgma-topology">>)
-     /\ IF okOc /\ (dom => p.leaves) /\ (dom => p.heights) THEN TRUE
-        ELSE PrintT(<<"MISMATCH", tid, l + 1, <<okOc, dom => p.leaves, dom => p.heights>>,
-                      [tree |-> IF dom THEN CanonTree(Upgma(e.D)) ELSE LeafN(R(0), 0)]>>)
-JudgeUpgma(e) ==
-  \E dom \in {Dom_Matrix(e.D) /\ Len(e.D) >= 2} :
-  \E p \in {IF e.obs[1] = "ok" THEN UpgmaPostObs(e.D, e.obs[2], e.obs[3]) ELSE [leaves |-> FALSE, heights |-> FALSE]} :
-    JudgeUpgmaWith(e, dom, p)
+\* <<outcome, every index one leaf, postcondition>> of one call, from what was observed
+UpgmaFlagsWith(D, o, dom, p) ==
+  <<(dom => o[1] = "ok") /\ (~Dom_SymNonNeg(D) => o[1] = "Rejected"), dom => p.leaves, dom => p.heights>>
+UpgmaFlagsIn(D, o, dom) ==                                 \* dom = Dom_Matrix(D) /\ Len(D) >= 2
+  Bind(IF o[1] = "ok" /\ dom THEN UpgmaPostObs(D, o[2], o[3]) ELSE [leaves |-> FALSE, heights |-> FALSE], LAMBDA p :
+    UpgmaFlagsWith(D, o, dom, p))
+UpgmaFlags(D, o) == Bind(Dom_Matrix(D) /\ Len(D) >= 2, LAMBDA dom : UpgmaFlagsIn(D, o, dom))
+NjFlagsWith(D, o, dom, small, p) ==
+  <<(dom => (o[1] = IF small THEN "Rejected" ELSE "ok")) /\ (~Dom_SymNonNeg(D) => o[1] = "Rejected"),
+    (dom /\ ~small) => p.leaves, (dom /\ ~small) => p.paths>>
+NjFlagsIn(D, o, dom, additive) ==                          \* dom = Dom_Matrix(D), additive = dom /\ Dom_Additive(D)
+  Bind(IF o[1] = "ok" /\ dom THEN NjPostObsWith(D, additive, o[2], o[3]) ELSE [leaves |-> FALSE, paths |-> FALSE], LAMBDA p :
+    NjFlagsWith(D, o, dom, ~Dom_NjSize(D), p))
+NjFlags(D, o) == Bind(Dom_Matrix(D), LAMBDA dom : Bind(dom /\ Dom_Additive(D), LAMBDA additive : NjFlagsIn(D, o, dom, additive)))
+AllTrue(flags) == \A q \in DOMAIN flags : flags[q]
+\* the caller's array is the same after the call (ArrayAfter)
+Unchanged(changed) == changed = <<>>
 
-JudgeNjWith(e, dom, small, p) ==
-  LET o == e.obs
-      okOc == (dom => (o[1] = IF small THEN "Rejected" ELSE "ok")) /\ (~Dom_SymNonNeg(e.D) => o[1] = "Rejected")
-  IN IF okOc /\ ((dom /\ ~small) => p.leaves) /\ ((dom /\ ~small) => p.paths) THEN TRUE
-     ELSE PrintT(<<"MISMATCH", tid, l + 1, <<okOc, (dom /\ ~small) => p.leaves, (dom /\ ~small) => p.paths>>,
-                   [additive |-> dom /\ Dom_Additive(e.D)]>>)
+JudgeUpgma(e) ==
+  \E dom \in {Dom_Matrix(e.D) /\ Len(e.D) >= 2} : \E f \in {UpgmaFlags(e.D, e.obs) \o <<Unchanged(e.changed)>>} :
+    \* no verdict: the specification's own run (first minimum in scan order) gives the same clades
+    /\ IF ~dom \/ e.obs[1] # "ok" \/ Clades(Upgma(e.D)) = Clades(TreeOf(e.tree)) THEN TRUE
+        ELSE PrintT(<<"DIAG", tid, l + 1, "upgma-topology">>)
+    /\ IF AllTrue(f) THEN TRUE
+        ELSE PrintT(<<"MISMATCH", tid, l + 1, f, [tree |-> IF dom THEN CanonTree(Upgma(e.D)) ELSE LeafN(R(0), 0)]>>)
+
 JudgeNj(e) ==
-  \E dom \in {Dom_Matrix(e.D)} : \E small \in {~Dom_NjSize(e.D)} :
-  \E p \in {IF e.obs[1] = "ok" THEN NjPostObs(e.D, e.obs[2], e.obs[3]) ELSE [leaves |-> FALSE, paths |-> FALSE]} :
-    JudgeNjWith(e, dom, small, p)
+  \E f \in {NjFlags(e.D, e.obs) \o <<Unchanged(e.changed)>>} :
+    IF AllTrue(f) THEN TRUE
+    ELSE PrintT(<<"MISMATCH", tid, l + 1, f, [additive |-> Dom_Matrix(e.D) /\ Dom_Additive(e.D)]>>)
+
+\* a history of calls on one array: every call is judged against the matrix the array was made from
+JudgeSession(e) ==
+  \E dom \in {Dom_Matrix(e.D)} : \E additive \in {Dom_Matrix(e.D) /\ Dom_Additive(e.D)} :
+  \E per \in {[c \in DOMAIN e.calls |->
+                 (IF e.calls[c].fn = "upgma" THEN UpgmaFlagsIn(e.D, e.calls[c].obs, dom /\ Len(e.D) >= 2)
+                                            ELSE NjFlagsIn(e.D, e.calls[c].obs, dom, additive))
+                 \o <<Unchanged(e.calls[c].changed)>>]} :
+  \E f \in {<<Dom_SymNonNeg(e.D) => Dom_Kind(e.D, e.kind), \A c \in DOMAIN per : per[c][1], \A c \in DOMAIN per : per[c][2],
+               \A c \in DOMAIN per : per[c][3], \A c \in DOMAIN per : per[c][4]>>} :
+    IF AllTrue(f) /\ e.kind \in ArrayKinds /\ \A c \in DOMAIN e.calls : e.calls[c].fn \in ClusterFns THEN TRUE
+    ELSE PrintT(<<"MISMATCH", tid, l + 1, f, [calls |-> per]>>)
+
+\* upgma() on a block matrix: the one-pass postcondition on the flat form of the returned tree
+JudgeBlock(e) ==
+  \E inDom \in {Dom_Block(e.B, e.grp)} : \E exact \in {Dom_BlockExact(e.B, e.grp)} :
+  \E p \in {IF inDom /\ e.obs[1] = "ok" THEN FlatPost(e.B, e.grp, e.obs[2], Len(e.grp)) ELSE [leaves |-> FALSE, heights |-> FALSE]} :
+  \E f \in {<<inDom, e.obs[1] = "ok", p.leaves, exact => p.heights, Unchanged(e.changed)>>} :
+    /\ PrintT(<<"BLOCK", tid, l + 1, exact, IF exact THEN WRun(e.B, GroupSizes(e.grp, Len(e.B))).crit ELSE 0>>)
+    /\ IF AllTrue(f) THEN TRUE ELSE PrintT(<<"MISMATCH", tid, l + 1, f, [exact |-> exact]>>)
 
 Judge(e) ==
   CASE e.op = "tree"  -> JudgeTree(e)
     [] e.op = "upgma" -> JudgeUpgma(e)
     [] e.op = "nj"    -> JudgeNj(e)
+    [] e.op = "session" -> JudgeSession(e)
+    [] e.op = "block" -> JudgeBlock(e)
 
 Init == tid \in 1..Len(Tr) /\ l = 0
 Next == /\ l < Len(Tr[tid])
